@@ -12,13 +12,13 @@ TECHS = {"C17": "symbolic interpreter over go/ssa with decision enumeration (reg
 claimed = {
  "C17": dict(level="Partial claim. The router's dispatch logic (Match/ServeCOAP/Handle/HandleRemove/DefaultHandle/Use, newRouteRegexp, extractVars) is executed by the symbolic interpreter for every decided route set, request path and map iteration order within the listed sets against an independent segment matcher; braceIndices is decided over all symbolic strings up to the bound. The regular-expression engine is not encoded: it is evaluated by the host on concrete strings, so route patterns and paths are enumerated, not symbolic.",
              note="Not decided: that compiled regexps denote exactly the pattern language in general (QuoteMeta, anchoring, arbitrary {var:re}); data races under concurrent registration/dispatch. Trusted: gosym encoder (native witnesses), host regexp.", ref="DESIGN.md §4 C17"),
- "C12": dict(level="Bounded symbolic model checking with engine ghost state per pooled message (released from the return of ReleaseMessage until AcquireMessage hands it out again): double release, any method call on a released message from outside the pool, and a held response/request/hijacked request found released or changed are violations; explored on the real connection for held responses, handler-held and hijacked requests, the retransmission-vs-acknowledgement race (2 threads) and the response writer.",
-             note="Trusted: gosym encoder/scheduler; the same ghost rules are instrumented into the native build for replay. LIFO model of sync.Pool. TCP, block-wise error paths and application goroutines outside.", ref="DESIGN.md §4 C12"),
- "C03": dict(level="Context-bounded symbolic model checking of the real udp/client.Conn (Do/doInternal, writeMessage, Process, handleSpecialMessages, reader loop, handleReq/handle, token and message-ID tables, limiter, coder, pool) over an in-memory session with two concurrent callers and a peer that answers in every decided order/style/multiplicity with symbolic content: each successful call returns its own token and the content produced for it, no response object reaches two callers, a second request with an outstanding token is rejected without displacing the first.",
-             note="Trusted: gosym encoder and scheduler model (concurrent witnesses replayed natively under the recorded schedule and select choices), z3. Claimed for the datagram connection with block-wise off; other transports outside.", ref="DESIGN.md §4 C03"),
+ "C12": dict(level="Bounded symbolic model checking with engine ghost state per pooled message (released from the return of ReleaseMessage until AcquireMessage hands it out again): double release, any method call on a released message from outside the pool, and a held response/request/hijacked request found released or changed are violations; explored on the real UDP connection for held responses, handler-held and hijacked requests, the retransmission-vs-acknowledgement race and the release-on-return race (2 threads), block-wise responder and requester roles including the early-release error paths, the response writer, and a held response on the TCP connection.",
+             note="Trusted: gosym encoder/scheduler; the same ghost rules are instrumented into the native build for replay. LIFO model of sync.Pool. Observation callbacks and application goroutines outside.", ref="DESIGN.md §4 C12"),
+ "C03": dict(level="Context-bounded symbolic model checking of the real udp/client.Conn (Do/doInternal, writeMessage, Process, handleSpecialMessages, reader loop, handleReq/handle, token and message-ID tables, limiter, coder, pool) over an in-memory session with two concurrent callers and a peer that answers in every decided order/style/multiplicity with symbolic content: each successful call returns its own token and the content produced for it, no response object reaches two callers, a second request with an outstanding token is rejected without displacing the first; the same on the real tcp/client.Conn over an in-memory net.Conn, and on the UDP connection with a recycling pool after a release-on-return race.",
+             note="Trusted: gosym encoder and scheduler model (concurrent witnesses replayed natively under the recorded schedule and select choices), z3. Claimed for the datagram and stream connections with block-wise off; DTLS/TLS sessions outside.", ref="DESIGN.md §4 C03"),
  "C04": dict(level="Bounded symbolic model checking of the real block-wise layer on both ends of a relay (Do, Handle, processReceivedMessage, continue/start/createSendingMessage, both caches, memfile): for every body length around block boundaries with symbolic bytes, SZX pair and decided fault (duplicate, drop, forged block of another representation), a completed exchange delivers exactly the supplied bytes exactly once with the other options preserved, and an exchange that cannot complete never presents a partial body.",
              note="Trusted: gosym encoder (native witnesses), z3/cvc5. Sequential two-party relay; BERT, >2 blocks, concurrency of transfers outside.", ref="DESIGN.md §4 C04"),
- "C13": dict(level="Bounded symbolic model checking of decided exchange histories on the real udp/client.Conn (in-package inspection of the unexported tables) and of completed/abandoned block-wise transfers, each followed by a housekeeping tick beyond every deadline: nothing per-exchange is retained.",
+ "C13": dict(level="Bounded symbolic model checking of decided exchange histories on the real udp/client.Conn (in-package inspection of the unexported tables) and of completed/abandoned block-wise transfers, each followed by a housekeeping tick beyond every deadline: nothing per-exchange is retained; exchange kinds include observe registration rejected / accepted-then-cancelled; the same for histories on the real tcp/client.Conn.",
              note="Trusted: gosym encoder/scheduler (native witnesses), z3. History length 2-3; limiter queues covered by C16; server tables outside.", ref="DESIGN.md §4 C13"),
  "C05": dict(level="Bounded symbolic model checking of the real udp/client.Conn receive path (handleReq, per-ID lock, reply cache with the real expiring cache, processResponse, pooled messages, coder) over an in-memory session: a duplicate within the symbolic exchange lifetime never re-runs the handler and is answered with the same reply matched to its message ID; after the lifetime the ID is fresh; IDs colliding with the endpoint's own outgoing IDs are inside the domain.",
              note="Trusted: gosym encoder (native witnesses with injected clock and schedule), z3/cvc5. Concurrent copies, separate responses and DTLS outside.", ref="DESIGN.md §4 C05"),
@@ -26,8 +26,8 @@ claimed = {
              note="Trusted: gosym encoder and scheduler model (native witnesses with injected clock and forced schedule), z3/cvc5. Event-count and preemption bounds in evidence.", ref="DESIGN.md §4 C06"),
  "C07": dict(level="Bounded symbolic model checking of the real Session.processBuffer (with bytes.Buffer, pooled messages and the stream coder interpreted from source) in the inductive two-segment form: for every byte stream within the bound, every cut and every maximum message size, the deliveries, the buffered remainder and the error outcome of processing S[:c] then S[c:] equal those of processing S at once, and both equal a reference framer written from RFC 8323 §3.2 (oversize frames: error as soon as the header is complete, nothing of or after them delivered).",
              note="Trusted: gosym encoder (native witnesses), z3/cvc5, the harness reference framer. Stream length bound in evidence; Run's read loop covered by the induction argument only.", ref="DESIGN.md §4 C07"),
- "C11": dict(level="Context-bounded symbolic model checking of the real ReceivedMessageReader (loop, TryToReplaceLoop) with harness handlers that block on nested requests exactly as Conn.doInternal does: exactly-once processing, arrival order while handlers do not block, no stall (any state in which the pusher or a nested wait can never proceed is reported as deadlock) for every queue size and interleaving within the bounds; counterexample schedules and select choices are forced on the native build.",
-             note="Trusted: gosym encoder/scheduler model (concurrent witnesses replayed natively), z3. Claimed on the reader component; socket-to-queue hand-off and transports outside.", ref="DESIGN.md §4 C11"),
+ "C11": dict(level="Context-bounded symbolic model checking of the real ReceivedMessageReader (loop, TryToReplaceLoop) with harness handlers that block on nested requests exactly as Conn.doInternal does: exactly-once processing, arrival order while handlers do not block, no stall (any state in which the pusher or a nested wait can never proceed is reported as deadlock) for every queue size and interleaving within the bounds; and of the real udp/client.Conn fed through Conn.Process with request handlers and observation callbacks that block on nested confirmable requests while later stimuli and the answers arrive in every decided order; counterexample schedules and select choices are forced on the native build.",
+             note="Trusted: gosym encoder/scheduler model (concurrent witnesses replayed natively), z3. Reader component and UDP connection; TCP/DTLS/TLS sessions outside.", ref="DESIGN.md §4 C11"),
  "C16": dict(level="Context-bounded symbolic model checking of the real limiter (with the real x/sync semaphore, container/list and context interpreted from source): 3-4 request goroutines, limits from {1,2}^2, a controller thread deciding every order of finish/cancel events; asserts the total and per-endpoint limits at every admission, arrival-order admission per path, cancelled waiters returning their context error without disturbing slots, and an idle limiter (empty queues, full semaphore, immediate admission) at the end. Counterexample schedules are forced on the native build.",
              note="Trusted: gosym encoder and scheduler model (concurrent witnesses replayed natively under the recorded schedule), z3. Preemption bound 1; >5 requests outside.", ref="DESIGN.md §4 C16"),
  "C14": dict(level="Context-bounded symbolic model checking of pkg/sync.Map and pkg/cache.Cache: goroutines are interpreter threads, every interleaving at synchronisation-operation granularity within the preemption bound is explored as solver-visible decisions; histories are checked for linearizability against a sequential map specification written in the harness, plus the three clauses singled out by the property (store-if-absent has one winner on absent/expired keys, callbacks see the value in the map, the sweep never removes an unexpired entry). Counterexample schedules are forced on the native build.",
